@@ -320,11 +320,11 @@ Err without panic. Non-trivial = a word in >= 2 member dictionaries and >= 1 typ
     );
     rep.run_enum(
         "big-files",
-        "KyTea files with 6,000 and 40,000 dictionary words (converted model of 150 KB / 1 MB, \
-larger than any I/O buffer) through the library (prefixes strided) and through the shipped \
+        "KyTea files with 6,000, 40,000 and 70,000 dictionary words (converted model of 150 KB .. 1.8 MB, \
+larger than any I/O buffer; the last one a trie of more than 65,536 entries) through the library (prefixes strided) and through the shipped \
 convert_kytea_model program: same oracles",
         false,
-        [6_000usize, 40_000].into_iter().map(big_file_case),
+        [6_000usize, 40_000, 70_000].into_iter().map(big_file_case),
         |c: &KyteaCase| {
             test_file(&c.file, &c.texts, false)?;
             test_tool(&c.file).map(|mut i| {
